@@ -361,7 +361,7 @@ func (cp *campaign) run() []Outcome {
 
 func probeCodes(g *spec.Grammar) []int {
 	set := map[int]bool{-1: true, 0: true, pipe.BadCode(g): true}
-	for c := -3; c < 300; c++ {
+	for c := -3; c < 1100; c++ {
 		set[c] = true
 	}
 	for _, t := range g.Tokens {
